@@ -7,6 +7,7 @@ import (
 	"reflect"
 	"regexp"
 	"sort"
+	"strconv"
 	"strings"
 
 	"dawnverif/checker/core"
@@ -49,13 +50,14 @@ var (
 func runC19(p *core.Prog, r *core.Result) {
 	r.Decided = []string{
 		"R19.6 the loader assigns no decoded field of Config, and of a requirement only its path (CleanPath): name, version and ignore list are returned as written",
+		"R19.7 path cleaning on load keeps every version suffix except the ones compared equal to a constant (\"\", v0, v1): JoinPathVersion returns the bare path only on edges where the major version was tested equal to a string constant, and otherwise a string built from the path, \"@\" and the major version in that order - an ordering or validity test (semver.Compare, IsValid) in that place drops an open-ended family of suffixes, so an already clean path such as tools/gen@edge loads back as tools/gen and get/tidy rewrite it",
 		"R19.5 loading a configuration touches no package-level state: every load decodes the bytes afresh, so no two loaded configurations share maps or slices through a cache",
 		"R19.4 every format string of the writer is a constant: configuration data is only ever an operand, never the format",
 		"R19.1 the hand-written writer emits every toml-tagged field of Config and RequirementConfig, under the key given by the field's tag",
 		"R19.2 requirements are written in sorted key order (no Go-map iteration order reaches the output)",
 		"R19.3 every configuration value is written through the TOML encoder; a requirement name is written bare only when it is non-empty and consists of bare-key characters (A-Z a-z 0-9 _ -)",
 	}
-	r.NotDecided = []string{"that go-toml decodes what its encoder produces for every string (library behaviour)", "byte identity of a second write as observed", "validation/cleaning of paths and versions on load"}
+	r.NotDecided = []string{"that go-toml decodes what its encoder produces for every string (library behaviour)", "byte identity of a second write as observed", "validation of versions on load, and path.Clean on the path part"}
 	w := need(p, r, "R19.0", "internal/project", "", "WriteConfigFile")
 	enc := need(p, r, "R19.0", "internal/project", "", "encodeValue")
 	plain := need(p, r, "R19.0", "internal/project", "", "isPlainRune")
@@ -273,6 +275,9 @@ func runC19(p *core.Prog, r *core.Result) {
 			r.OK("R19.6", "internal/project.LoadConfigBytes#decoded-fields-untouched", p.Pos(lb.Pos()), "no decoded field is assigned by the loader")
 		}
 	}
+
+	// ---- R19.7 a version suffix is dropped only for the listed major versions
+	checkJoinPathVersion(p, r, "R19.7")
 
 	// ---- R19.4 format strings are constants
 	nFmt := 0
@@ -646,4 +651,143 @@ func allRunesPlain(p *core.Prog, h *ssa.Function, key *ssa.Parameter, ret *ssa.R
 		}
 	})
 	return ok
+}
+
+// checkJoinPathVersion implements R19.7.
+func checkJoinPathVersion(p *core.Prog, r *core.Result, rule string) {
+	join := need(p, r, rule, "internal/project", "", "JoinPathVersion")
+	if join == nil || len(join.Params) != 2 {
+		return
+	}
+	pathP, majorP := ssa.Value(join.Params[0]), ssa.Value(join.Params[1])
+	eqConst := func(fs core.FactSet) (string, bool) {
+		found, which := false, ""
+		fs.Find(func(c ssa.Value, v bool) bool {
+			b, ok := c.(*ssa.BinOp)
+			if !ok {
+				return false
+			}
+			var other ssa.Value
+			switch {
+			case b.X == majorP:
+				other = b.Y
+			case b.Y == majorP:
+				other = b.X
+			default:
+				return false
+			}
+			k, isConst := core.ConstString(other)
+			if !isConst {
+				return false
+			}
+			if b.Op == token.EQL && v || b.Op == token.NEQ && !v {
+				found, which = true, k
+				return true
+			}
+			return false
+		})
+		return which, found
+	}
+	nBare, nJoined := 0, 0
+	for _, ret := range core.ReturnsOf(join) {
+		vals := core.RetVals(ret)
+		if len(vals) != 1 {
+			continue
+		}
+		if vals[0] == pathP {
+			nBare++
+			construct := fmt.Sprintf("internal/project.JoinPathVersion#drops-suffix-%d", nBare)
+			var consts []string
+			ok := true
+			if k, found := eqConst(p.FactsAt(ret)); found {
+				consts = append(consts, strconv.Quote(k))
+			} else {
+				// a || b || c: the block is entered from several tests; every entering edge carries an equality
+				blk := ret.Block()
+				if len(blk.Preds) == 0 {
+					ok = false
+				}
+				for _, q := range blk.Preds {
+					for si, sc := range q.Succs {
+						if sc != blk {
+							continue
+						}
+						if k, found := eqConst(p.EdgeFacts(q, si)); found {
+							consts = append(consts, strconv.Quote(k))
+						} else {
+							ok = false
+						}
+					}
+				}
+			}
+			sort.Strings(consts)
+			r.Check(ok, rule, construct, p.InstrPos(ret), "the bare path is returned only where the major version equals one of "+strings.Join(consts, ", "), "the bare path can be returned on an edge where the major version was not tested equal to a constant: suffixes outside the intended list are dropped, so CleanPath is not the identity on clean paths (tools/gen@edge loads back as tools/gen) and the configuration does not round-trip")
+			continue
+		}
+		nJoined++
+		construct := fmt.Sprintf("internal/project.JoinPathVersion#keeps-suffix-%d", nJoined)
+		okJoin := false
+		switch x := vals[0].(type) {
+		case *ssa.Call:
+			// fmt.Sprintf("%v@%v", p, major)
+			if core.IsCallTo(x, "fmt", "Sprintf") {
+				if f, isConst := core.ConstString(x.Call.Args[0]); isConst && (f == "%v@%v" || f == "%s@%s") {
+					ops := variadicOperands(x)
+					okJoin = len(ops) == 2 && core.Unwrap(ops[0]) == pathP && core.Unwrap(ops[1]) == majorP
+				}
+			}
+		case *ssa.BinOp:
+			// p + "@" + major
+			if x.Op == token.ADD && x.Y == majorP {
+				if l, ok := x.X.(*ssa.BinOp); ok && l.Op == token.ADD && l.X == pathP {
+					if sep, isConst := core.ConstString(l.Y); isConst && sep == "@" {
+						okJoin = true
+					}
+				}
+			}
+		}
+		r.Check(okJoin, rule, construct, p.InstrPos(ret), "the kept suffix is written as path@major", "a non-bare result of JoinPathVersion is not path, \"@\", major in that order: SplitPathVersion does not recover what was joined")
+	}
+	r.Floor(rule, nBare, 1, "bare-path returns of JoinPathVersion")
+	r.Floor(rule, nJoined, 1, "suffix-keeping returns of JoinPathVersion")
+}
+
+// variadicOperands lists the values passed in the ...any tail of a call (the elements stored into the implicit array).
+func variadicOperands(c *ssa.Call) []ssa.Value {
+	if len(c.Call.Args) == 0 {
+		return nil
+	}
+	sl, ok := c.Call.Args[len(c.Call.Args)-1].(*ssa.Slice)
+	if !ok {
+		return nil
+	}
+	arr, ok := sl.X.(*ssa.Alloc)
+	if !ok {
+		return nil
+	}
+	byIdx := map[int64]ssa.Value{}
+	for _, ref := range *arr.Referrers() {
+		ia, ok := ref.(*ssa.IndexAddr)
+		if !ok {
+			continue
+		}
+		k, ok := core.ConstInt(ia.Index)
+		if !ok {
+			continue
+		}
+		for _, ref2 := range *ia.Referrers() {
+			if st, ok := ref2.(*ssa.Store); ok && st.Addr == ssa.Value(ia) {
+				v := st.Val
+				if mi, ok := v.(*ssa.MakeInterface); ok {
+					v = mi.X
+				}
+				byIdx[k] = v
+			}
+		}
+	}
+	var out []ssa.Value
+	for i := int64(0); i < int64(len(byIdx)); i++ {
+		out = append(out, byIdx[i])
+	}
+	return out
 }
